@@ -4,6 +4,7 @@ import collections
 import hashlib
 import json
 import multiprocessing
+import signal
 import os
 import re
 import sys
@@ -21,16 +22,47 @@ def workers():
     return int(os.environ.get('VERIF_WORKERS', min(16, os.cpu_count() or 1)))
 
 
+TASK_CPU_S = float(os.environ.get('VERIF_TASK_CPU_S', '3600'))
+
+
+class TaskTimeout(Exception):
+    pass
+
+
+def _on_vtalrm(signum, frame):
+    raise TaskTimeout('one exploration task used more than %.0f s of CPU: the code under test does not terminate '
+                      '(or the bound is far too large)' % TASK_CPU_S)
+
+
+class _Guarded:
+    """picklable wrapper: runs func(task) under a CPU-time ceiling, so that code under test that never terminates
+    turns into an aborted check (reported as a violation by verify.py) instead of a check that never ends"""
+
+    def __init__(self, func):
+        self.func = func
+
+    def __call__(self, task):
+        try:
+            signal.signal(signal.SIGVTALRM, _on_vtalrm)
+            signal.setitimer(signal.ITIMER_VIRTUAL, TASK_CPU_S)
+        except ValueError:
+            return self.func(task)
+        try:
+            return self.func(task)
+        finally:
+            signal.setitimer(signal.ITIMER_VIRTUAL, 0)
+
+
 def pmap(func, tasks, chunksize=1):
     """ordered parallel map with fork workers (falls back to serial for 1 worker / few tasks)"""
     tasks = list(tasks)
     n = workers()
     if n <= 1 or len(tasks) <= 1:
-        return [func(t) for t in tasks]
+        return [_Guarded(func)(t) for t in tasks]
     ctx = multiprocessing.get_context('fork')
     pool = ctx.Pool(min(n, len(tasks)))
     try:
-        out = pool.map(func, tasks, chunksize)
+        out = pool.map(_Guarded(func), tasks, chunksize)
         pool.close()        # let the workers exit by themselves (a coverage run writes its data at exit)
     except BaseException:
         pool.terminate()
